@@ -347,6 +347,12 @@ func genC08(r *Rng, tier string) []Case {
 		if r.Chance(1, 30) {
 			o.extraResp = append(o.extraResp, [2]string{":status", "500"})
 		}
+		if r.Chance(1, 12) { // two map keys that differ only in letter case (a caller-built map): one CBOR key twice
+			o.extraResp = append(o.extraResp, [2]string{"X-Variant", "alpha"}, [2]string{"raw:x-variant", "beta"})
+		}
+		if r.Chance(1, 20) {
+			o.extraReq = append(o.extraReq, [2]string{"Accept", "a"}, [2]string{"raw:ACCEPT", "b"})
+		}
 		e := mkExchange(r, ver, o)
 		ex := exchangeInSx(e)
 		cs = append(cs, Case{"sxg_headers", []Sx{ex}})
